@@ -136,7 +136,23 @@ func addDecimals(receiver object.Object, objType object.ObjectType, args ...obje
 		return &object.Str{Value: val}, nil
 	}
 
-	zeros := strings.Repeat("0", decimals)
+	zeros, err := repeatStr("0", decimals)
+	if err != nil {
+		return nil, err
+	}
 
 	return &object.Str{Value: val + separator + zeros}, nil
+}
+
+// maxRepeatLen is the longest string that repeatStr builds
+const maxRepeatLen = 1 << 28
+
+// repeatStr is strings.Repeat that reports an oversized
+// result as an error instead of panicking
+func repeatStr(s string, count int) (string, error) {
+	if count > 0 && len(s) > maxRepeatLen/count {
+		return "", fmt.Errorf(fail.ErrRepeatTooLong, maxRepeatLen)
+	}
+
+	return strings.Repeat(s, count), nil
 }
